@@ -33,6 +33,13 @@ const vfC02SyncFn = `function(doc, oldDoc, meta) { channel(doc.chan); }`
 // vfC02SigAtt is the signature of DESIGN §5a item 13 as a disclosure path (owned by C14).
 const vfC02SigAtt = "non-winning-revision-attachments-land-on-winner"
 
+// vfC02SigStamp: a revision written on top of a non-winning leaf makes the gateway back up that
+// leaf's body stamped with the channels of the document's *current* (winning) revision
+// (db/crud.go: oldChannels := doc.getCurrentChannels() … backupAncestorRevs(…, oldChannels)); once
+// the revision cache no longer holds the leaf, GET ?rev=<leaf> is authorised against the winner's
+// channels and serves the body to users who never had one of the leaf's own channels.
+const vfC02SigStamp = "superseded-non-winning-revision-authorised-by-winner-channels"
+
 type vfC02User struct {
 	Name  string
 	Chans []string // admin channels
@@ -71,9 +78,11 @@ type vfC02Rev struct {
 	Marker  string // "" for body-less tombstones
 	Atts    map[string]*vfC02Att
 	HasKids bool
+	Stamped [][]string // channel sets of the then-current revision at the time a child was written below this non-winning leaf
 }
 
 type vfC02Doc struct {
+	world    *vfC02World
 	Idx      int
 	ID       string
 	IDMarker string
@@ -98,6 +107,8 @@ type vfC02World struct {
 	ops         []string
 	known13     bool
 	excluded13  int
+	knownStamp  bool
+	stamped     int
 	classes     map[string]bool
 	// marker index
 	revByMarker map[string]*vfC02Rev
@@ -144,7 +155,20 @@ func (u *vfC02User) inChans(chans []string) bool {
 	return u.mayChans(chans)
 }
 
-func (u *vfC02User) mayRev(r *vfC02Rev) bool { return u.mayChans(r.Chans) }
+func (u *vfC02User) mayRev(r *vfC02Rev) bool {
+	if u.mayChans(r.Chans) {
+		return true
+	}
+	if r.Doc != nil && r.Doc.world != nil && r.Doc.world.knownStamp {
+		// listed finding: the backup of a superseded non-winning leaf answers to the winner's channels
+		for _, cs := range r.Stamped {
+			if u.mayChans(cs) {
+				return true
+			}
+		}
+	}
+	return false
+}
 
 func (u *vfC02User) mayAtt(a *vfC02Att) bool {
 	for _, r := range a.Revs {
@@ -282,6 +306,7 @@ func vfC02NewWorld(t *testing.T, rt *rapid.T) (w *vfC02World, err error) {
 	w.dbName = w.rt.GetDatabase().Name
 	w.ks = w.rt.GetSingleKeyspace()
 	w.known13 = kit.Known("C02", vfC02SigAtt)
+	w.knownStamp = kit.Known("C02", vfC02SigStamp)
 	w.logf("collection=%s conflicts=%v", map[bool]string{true: "default", false: "named"}[w.defaultColl], w.conflicts)
 	ds := w.rt.GetSingleDataStore()
 	r := w.send("", "PUT", "/"+w.dbName+"/_role/rA", GetRolePayload(t, "", ds, []string{"A"}), nil)
@@ -296,7 +321,7 @@ func vfC02NewWorld(t *testing.T, rt *rapid.T) (w *vfC02World, err error) {
 	}
 	for i := 0; i < 4; i++ {
 		m := w.marker('i')
-		d := &vfC02Doc{Idx: i, ID: fmt.Sprintf("doc%d-%s", i, m), IDMarker: m, ByID: map[string]*vfC02Rev{}}
+		d := &vfC02Doc{world: w, Idx: i, ID: fmt.Sprintf("doc%d-%s", i, m), IDMarker: m, ByID: map[string]*vfC02Rev{}}
 		w.docs = append(w.docs, d)
 		w.docByMarker[m] = d
 	}
@@ -488,6 +513,12 @@ func (w *vfC02World) apply(wr *vfC02Write) error {
 	d.Revs = append(d.Revs, r)
 	d.ByID[revID] = r
 	if wr.parent != nil {
+		if !wr.parent.HasKids && d.Winner != nil && wr.parent != d.Winner && wr.parent.Marker != "" {
+			// the parent was a non-winning leaf: its body is backed up now (d.Winner is still the winner before this write)
+			wr.parent.Stamped = append(wr.parent.Stamped, d.Winner.Chans)
+			w.stamped++
+			w.classes["child-of-non-winning-leaf"] = true
+		}
 		wr.parent.HasKids = true
 	}
 	if r.Marker != "" {
